@@ -9,6 +9,12 @@ bounds of a slice are written (a block is the set of rows / columns selected in 
 imported, or how the private helpers of expmint (_geti2, _solve_P_Q_2) name and order their parameters (they are evaluated as expmint
 reaches them).  Conventions that are read from the callee's own signature: _expm_SS(A, ssA, order), pade13_scaled_i(s, h), pade13_scaled(s),
 the (U, V, P, Q) order of the table methods' results.
+
+Pass 3: option regimes include (B given, half=True) for every getEPQ variant (the option is documented to be ignored: sibling agreement);
+SSModel conversions are composed on the *objects* the methods return (c2d(d2c(z)) = z on the converted and on a generic discrete model,
+getlti), so what a result says about itself (h, method, prewarp) is part of the value; R7 is a typestate rule: the A^-1 formula of the second
+integral is justified only by a test, made on the same path, of a solve with the factorisation of A against the independently computed first
+integral (la.lu_factor is the pair (lufac, lupiv): a solve with it is a division, anything else read from it is a function of the factors).
 """
 from __future__ import annotations
 
@@ -1018,6 +1024,8 @@ def _int_hook(extra=None):
                     return F.const(c0 % k)
                 if op == "BitAnd" and k & (k + 1) == 0 and _divisible(a - c0, k + 1):   # a & (2^j - 1) = a mod 2^j
                     return F.const(c0 % (k + 1))
+                if op == "BitOr" and k & (k + 1) == 0 and _divisible(a - c0, k + 1) and c0 >= 0:    # the low j bits are set
+                    return (a - c0) + (c0 | k)
                 if op == "RShift" and _divisible(a - c0, 2 ** k):
                     return (a - c0) / (2 ** k) + c0 // (2 ** k)
                 if op == "LShift":
@@ -1033,6 +1041,13 @@ def _int_hook(extra=None):
         return NotImplemented
 
     return hook
+
+
+def _dims_oracle(it, v, node):
+    """truth of an integer expression in array dimensions (positive integers): non-zero when all its terms are positive"""
+    if _int_expr(v) and not v.is_const() and I.sign_of(v) == 1:
+        return True
+    return None
 
 
 def _square_shapes(extra, n, i=None):
@@ -1117,7 +1132,7 @@ def r4_siblings(ctx):
                 # without an input matrix every matrix is n x n; the `half` option is defined for an even n, written 2 m
                 nval = F.sym("n") if nv is None else nv
                 sq_hook, sq_shape = _square_shapes(extra, nval, None if Bv is None else F.sym("i"))
-                it = Interp(ctx, EXPM, hook=_ordered_hook(_int_hook(sq_hook if (Bv is None or half) else extra)), erase=False)
+                it = Interp(ctx, EXPM, hook=_ordered_hook(_int_hook(sq_hook if (Bv is None or half) else extra)), erase=False, oracle=_dims_oracle)
                 if Bv is None or half:
                     it.shape_of = sq_shape
                 ret = it.call(q, [A, h, F.const(order), Bv, half])
@@ -1594,7 +1609,7 @@ def r6_augmented(ctx):
 
             # the `half` option is defined for an even number of states, written 2 m: every spelling of "half of n" is then m
             nval = F.sym("n") if nv is None else nv
-            it = Interp(ctx, EXPM, hook=_ordered_hook(_int_hook(extra)), erase=False)
+            it = Interp(ctx, EXPM, hook=_ordered_hook(_int_hook(extra)), erase=False, oracle=_dims_oracle)
             it.shape_of = lambda v, shapes=shapes, nval=nval: _shape_of(v, shapes, nval)
             ret = it.call("getEPQ2", [A, h, F.const(order), Bval, half])
             call = _last(it.calls, "_expm_SS")
@@ -1909,9 +1924,9 @@ RULES = [
     ("C07-R1", r1_pade_tables, 29),
     ("C07-R2", r2_thresholds, 44),
     ("C07-R3", r3_squaring, 22),
-    ("C07-R4", r4_siblings, 18),
-    ("C07-R5", r5_ssmodel, 34),
-    ("C07-R6", r6_augmented, 57),
+    ("C07-R4", r4_siblings, 26),
+    ("C07-R5", r5_ssmodel, 60),
+    ("C07-R6", r6_augmented, 95),
     ("C07-R7", r7_inverse_formula_guard, 1),
 ]
 LEVEL = "other"
@@ -1921,18 +1936,25 @@ EXPLANATION = ("Static: every Pade coefficient table in expmint.py (17 tables) i
                "the table used, the order told to _geti2, the scaling power and the squaring loop (trip count, I <- I + I.E before E <- E.E) are values "
                "of that evaluation; getEPQ1/getEPQ_pow build P,Q identically in every B/half regime; the power-series loops produce the documented partial "
                "sums; getEPQ switches at theta_9, which bounds the route with a Pade table for the second integral; getEPQ2's augmented matrix "
-               "(blocks, floating dtype, partition of the result); SSModel.c2d/d2c per method: hold-equivalent / bilinear transfer function, round trip, "
-               "no in-place update of retained arrays.")
+               "(blocks, floating dtype, partition of the result), also with an input matrix and half=True (the option is ignored, as in the sibling variants); "
+               "SSModel.c2d/d2c per method: hold-equivalent / bilinear transfer function, round trip in both directions (d2c(c2d(s)) = s, "
+               "c2d(d2c(z)) = z evaluated on the objects returned, so a 'continuous' result that keeps its step is seen), recorded method / prewarp, getlti, "
+               "no in-place update of retained arrays; the A^-1 formula of the second integral on the order-13 route is reached only on a path on which "
+               "a solve with the factorisation of A was checked against the first integral (a pivot / determinant test does not establish that).")
 MANIFEST = {
     "text": "Partial claim decided statically: (R1) all 17 Pade tables are exact diagonal approximants (order conditions to O(x^(2N+1)) in exact rationals), "
             "with 2^-s scaling applied uniformly; (R2) regimes just below/above each published theta_m select the order-m table and tell _geti2 that order, "
             "the order-13 scaling power, getEPQ's switch constant and the route it guards; "
             "(R3) squaring loop runs s times with I <- I + I.E before E <- E.E, E/I/I2 assembled from the table of the route, _solve_P_Q_2 per structure; "
-            "(R4) getEPQ1 == getEPQ_pow in P,Q construction for B given / half, power-series partial sums, direct I2 formula; "
+            "(R4) getEPQ1 == getEPQ_pow in P,Q construction for B given / half / both (half ignored when B is given), power-series partial sums, "
+            "direct I2 formula (written with I or with A^-1 (E - 1)); "
             "(R5) SSModel.c2d/d2c per method (zoh, zoha, foh, tustin with and without prewarp): the discrete transfer function is the exactly sampled one for the "
-            "stated hold / the bilinear substitution of the continuous one, d2c(c2d(s)) = s, in the scalar image; conversions do not update retained arrays in place; "
+            "stated hold / the bilinear substitution of the continuous one, d2c(c2d(s)) = s and c2d(d2c(z)) = z (on the model objects the methods return: "
+            "the result of d2c must be continuous for c2d and getlti), recorded method / prewarp, in the scalar image; conversions do not update retained arrays in place; "
             "(R6) getEPQ2's augmented matrix: shape, content (which rows / columns hold A h, B h, I; everything else zero, whatever the spelling or order "
-            "of the stores), floating dtype, partition of exp(M) into E, P, Q by the rows / columns read. "
+            "of the stores), floating dtype, partition of exp(M) into E, P, Q by the rows / columns read, in every B / half regime; "
+            "(R7) typestate: on every evaluated path of the order-13 route that returns the second integral through A^-1, a test the code makes has compared a solve "
+            "with the same factorisation against the independently computed first integral (tests on pivots / determinant alone are reported, other tests are undecided). "
             "Not decided: floating-point accuracy, scipy's norm estimates and solves, conditioning, the block structure of _ExpmPadeHelper_SS beyond its scalar image.",
     "note": "Trusted: CPython ast; exact Fraction arithmetic; scipy's _ExpmPadeHelper.pade7/pade9 are taken to be the diagonal Pade approximants (library). "
             "The matrix polynomial identities are checked through the scalar homomorphism A -> x (sound for polynomials in one matrix).",
